@@ -239,7 +239,7 @@ harness!(avx2, 4, c07_empty_u8, {
 // --- generic ------------------------------------------------------------------------
 //@ C07 quick 800 generic max/argmax, f32, 2 rows x 16 columns
 harness!(none, 34, c07_generic_f32_r2_c16, max_argmax_body::<f32, U16, _, 2>(&generic()));
-//@ C07 thorough 3600 generic max/argmax, f32, 2 rows x 32 columns
+//@ C07 thorough 2961 generic max/argmax, f32, 2 rows x 32 columns
 harness!(none, 34, c07_generic_f32_r2, max_argmax_body::<f32, U32, _, 2>(&generic()));
 //@ C07 quick 800 generic max/argmax, u8, 2 rows x 16 columns
 harness!(none, 34, c07_generic_u8_r2_c16, max_argmax_body::<u8, U16, _, 2>(&generic()));
@@ -247,39 +247,39 @@ harness!(none, 34, c07_generic_u8_r2_c16, max_argmax_body::<u8, U16, _, 2>(&gene
 // --- SSE2 ----------------------------------------------------------------------------
 //@ C07 quick 800 SSE2 argmax/max, f32, 2 rows x 16 columns
 harness!(sse2, 34, c07_sse2_f32_r2_c16, max_argmax_body::<f32, U16, _, 2>(&sse2()));
-//@ C07 thorough 3600 SSE2 argmax/max, f32, 2 rows x 32 columns
+//@ C07 thorough 2766 SSE2 argmax/max, f32, 2 rows x 32 columns
 harness!(sse2, 34, c07_sse2_f32_r2_c32, max_argmax_body::<f32, U32, _, 2>(&sse2()));
-//@ C07 thorough 5400 SSE2 argmax/max, f32, 3 rows x 32 columns
+//@ C07 thorough 5486 SSE2 argmax/max, f32, 3 rows x 32 columns
 harness!(sse2, 34, c07_sse2_f32_r3_c32, max_argmax_body::<f32, U32, _, 3>(&sse2()));
 
 // --- AVX2 ----------------------------------------------------------------------------
 //@ C07 quick 800 AVX2 argmax/max, f32, 1 row
 harness!(avx2, 34, c07_avx2_f32_r1, max_argmax_body::<f32, U32, _, 1>(&avx2()));
-//@ C07 thorough 7200 AVX2 argmax/max, f32, 2 rows
+//@ C07 thorough 4897 AVX2 argmax/max, f32, 2 rows
 harness!(avx2, 34, c07_avx2_f32_r2, max_argmax_body::<f32, U32, _, 2>(&avx2()));
 //@ C07 quick 800 AVX2 argmax/max, u8, 1 row
 harness!(avx2, 34, c07_avx2_u8_r1, max_argmax_body::<u8, U32, _, 1>(&avx2()));
 //@ C07 quick 800 AVX2 argmax/max, u8, 2 rows
 harness!(avx2, 34, c07_avx2_u8_r2, max_argmax_body::<u8, U32, _, 2>(&avx2()));
-//@ C07 thorough 5400 AVX2 argmax/max, f32, 3 rows
+//@ C07 extended 5400 AVX2 argmax/max, f32, 3 rows
 harness!(avx2, 34, c07_avx2_f32_r3, max_argmax_body::<f32, U32, _, 3>(&avx2()));
-//@ C07 thorough 1800 AVX2 argmax/max, u8, 3 rows
+//@ C07 quick 800 AVX2 argmax/max, u8, 3 rows
 harness!(avx2, 34, c07_avx2_u8_r3, max_argmax_body::<u8, U32, _, 3>(&avx2()));
-//@ C07 thorough 10800 AVX2 argmax/max, f32, 5 rows
+//@ C07 extended 10800 AVX2 argmax/max, f32, 5 rows
 harness!(avx2, 34, c07_avx2_f32_r5, max_argmax_body::<f32, U32, _, 5>(&avx2()));
-//@ C07 thorough 3600 AVX2 argmax/max, u8, 5 rows
+//@ C07 thorough 1800 AVX2 argmax/max, u8, 5 rows
 harness!(avx2, 34, c07_avx2_u8_r5, max_argmax_body::<u8, U32, _, 5>(&avx2()));
 
 // --- dispatcher arms -------------------------------------------------------------------
-//@ C07 thorough 7200 StripedScores::{max,argmax} f32 via dispatcher, AVX2 arm, 2 rows
+//@ C07 thorough 6181 StripedScores::{max,argmax} f32 via dispatcher, AVX2 arm, 2 rows
 harness!(avx2, 34, c07_dispatch_avx2_f32_r2, dispatch_body::<f32, 2>(Dispatch::Avx2));
 //@ C07 quick 800 StripedScores::{max,argmax} f32 via dispatcher, SSE2 arm, 1 row
 harness!(avx2, 34, c07_dispatch_sse2_f32_r1, dispatch_body::<f32, 1>(Dispatch::Sse2));
 //@ C07 quick 800 StripedScores::{max,argmax} f32 via dispatcher, generic arm, 1 row
 harness!(avx2, 34, c07_dispatch_generic_f32_r1, dispatch_body::<f32, 1>(Dispatch::Generic));
-//@ C07 thorough 5400 StripedScores::{max,argmax} f32 via dispatcher, SSE2 arm, 2 rows
+//@ C07 extended 5400 StripedScores::{max,argmax} f32 via dispatcher, SSE2 arm, 2 rows
 harness!(avx2, 34, c07_dispatch_sse2_f32_r2, dispatch_body::<f32, 2>(Dispatch::Sse2));
-//@ C07 thorough 5400 StripedScores::{max,argmax} f32 via dispatcher, generic arm, 2 rows
+//@ C07 thorough 3447 StripedScores::{max,argmax} f32 via dispatcher, generic arm, 2 rows
 harness!(avx2, 34, c07_dispatch_generic_f32_r2, dispatch_body::<f32, 2>(Dispatch::Generic));
 //@ C07 quick 800 StripedScores::{max,argmax} u8 via dispatcher, AVX2 arm, 2 rows
 harness!(avx2, 34, c07_dispatch_avx2_u8_r2, dispatch_body::<u8, 2>(Dispatch::Avx2));
@@ -293,7 +293,7 @@ harness!(vec, 10, c07_threshold_f32_r2_c4, threshold_body::<f32, U4, _, 2>(&gene
 harness!(vec, 10, c07_threshold_u8_r3_c2, threshold_body::<u8, U2, _, 3>(&generic()));
 //@ C07 quick 800 StripedScores::threshold via dispatcher (AVX2 arm), f32, 1 row, 4 symbolic cells
 harness!(avx2vec8, 34, c07_threshold_dispatch_f32_r1, threshold_dispatch_body::<f32, 1>(Dispatch::Avx2));
-//@ C07 thorough 3600 threshold (default impl), f32, 1 row x 16 columns
+//@ C07 thorough 1800 threshold (default impl), f32, 1 row x 16 columns
 harness!(vec, 34, c07_threshold_f32_r1_c16, threshold_body::<f32, U16, _, 1>(&generic()));
-//@ C07 thorough 1800 StripedScores::threshold via dispatcher (generic arm), u8, 2 rows
+//@ C07 quick 800 StripedScores::threshold via dispatcher (generic arm), u8, 2 rows
 harness!(avx2vec8, 66, c07_threshold_dispatch_u8_r2, threshold_dispatch_body::<u8, 2>(Dispatch::Generic));
